@@ -693,6 +693,10 @@ func (e *Exec) callBuiltin(caller *frame, fn *ssa.Builtin, args []Value) Value {
 		if c == nil {
 			panic(targetPanic{Iface{T: e.M.runtimeErrT, V: litString("close of nil channel")}})
 		}
+		if e.evOn() {
+			e.evClose(c)
+			return nil
+		}
 		if c.closed {
 			panic(targetPanic{Iface{T: e.M.runtimeErrT, V: litString("close of closed channel")}})
 		}
@@ -825,6 +829,16 @@ func (e *Exec) copyOp(dst, src Slice) Value {
 // ---- channels / goroutines: not part of sequential harnesses ----
 
 func (e *Exec) chanRecv(c Value, commaOk bool) Value {
+	if e.evOn() {
+		if ch, ok := c.(*Chan); ok && ch != nil {
+			e.evRecv(ch)
+			// only closed-channel receives occur in the code under test: zero value
+			if commaOk {
+				return Tuple{Struct{}, sym.Bool(false)}
+			}
+			return Struct{}
+		}
+	}
 	e.unsupported("channel receive at %s", e.where())
 	return nil
 }
@@ -834,6 +848,10 @@ func (e *Exec) chanSend(c, v Value) {
 }
 
 func (e *Exec) goStmt(fr *frame, fn Value, args []Value) {
+	if e.evOn() {
+		e.evSpawn(fr, fn, args)
+		return
+	}
 	e.unsupported("go statement at %s", e.where())
 }
 
